@@ -79,6 +79,8 @@ pub(crate) struct Circuit {
     success_count: usize,
     total_count: usize,
     slow_call_count: usize,
+    // Outcomes (is_failure, is_slow) currently inside the count-based window, oldest first
+    count_window: VecDeque<(bool, bool)>,
     // Time-based window tracking
     call_records: VecDeque<CallRecord>,
 }
@@ -109,6 +111,7 @@ impl Circuit {
             success_count: 0,
             total_count: 0,
             slow_call_count: 0,
+            count_window: VecDeque::new(),
             call_records: VecDeque::new(),
         }
     }
@@ -154,6 +157,46 @@ impl Circuit {
             failure_rate,
             slow_call_rate,
             time_since_state_change: self.last_state_change.elapsed(),
+        }
+    }
+
+    /// Record one outcome in the count-based window.
+    ///
+    /// While closed the aggregates cover only the last `sliding_window_size` calls:
+    /// the oldest outcome leaves the window when a new one enters a full window.
+    fn record_count_based<C>(
+        &mut self,
+        config: &CircuitBreakerConfig<C>,
+        is_failure: bool,
+        is_slow: bool,
+    ) {
+        if self.state == CircuitState::Closed {
+            if config.sliding_window_size > 0
+                && self.count_window.len() >= config.sliding_window_size
+            {
+                if let Some((old_failure, old_slow)) = self.count_window.pop_front() {
+                    self.total_count -= 1;
+                    if old_failure {
+                        self.failure_count -= 1;
+                    } else {
+                        self.success_count -= 1;
+                    }
+                    if old_slow {
+                        self.slow_call_count -= 1;
+                    }
+                }
+            }
+            self.count_window.push_back((is_failure, is_slow));
+        }
+
+        if is_failure {
+            self.failure_count += 1;
+        } else {
+            self.success_count += 1;
+        }
+        self.total_count += 1;
+        if is_slow {
+            self.slow_call_count += 1;
         }
     }
 
@@ -207,11 +250,7 @@ impl Circuit {
         // Update statistics based on window type
         match config.sliding_window_type {
             SlidingWindowType::CountBased => {
-                self.success_count += 1;
-                self.total_count += 1;
-                if is_slow {
-                    self.slow_call_count += 1;
-                }
+                self.record_count_based(config, false, is_slow);
             }
             SlidingWindowType::TimeBased => {
                 if let Some(window_duration) = config.sliding_window_duration {
@@ -289,11 +328,7 @@ impl Circuit {
         // Update statistics based on window type
         match config.sliding_window_type {
             SlidingWindowType::CountBased => {
-                self.failure_count += 1;
-                self.total_count += 1;
-                if is_slow {
-                    self.slow_call_count += 1;
-                }
+                self.record_count_based(config, true, is_slow);
             }
             SlidingWindowType::TimeBased => {
                 if let Some(window_duration) = config.sliding_window_duration {
@@ -477,6 +512,7 @@ impl Circuit {
         self.failure_count = 0;
         self.total_count = 0;
         self.slow_call_count = 0;
+        self.count_window.clear();
         self.call_records.clear();
     }
 
